@@ -66,8 +66,8 @@ def scenarios(draw):
         actions = [{'a': 'start', 'op': hi, 'dt': draw(st.sampled_from([0.3, 1.0]))}, {'a': 'start', 'op': lo, 'dt': draw(st.sampled_from([1.0, 2.5, 7.0]))},
                    {'a': 'ns_bounce', 'gap': draw(st.sampled_from([0.0, 0.5, 3.0])), 'dt': draw(st.sampled_from([1.0, 2.5, 7.0]))},
                    {'a': draw(st.sampled_from(['stop', 'kill'])), 'op': hi, 'dt': draw(dts)}, {'a': 'settle'}] + actions[2:5]
-    # (at most one bounce per case: a namespace re-created again while the watchers of its previous life are still being terminated
-    #  confuses the operator's bookkeeping of served namespaces - that is C19's subject, see DESIGN 11.4, finding U - not peering's)
+    # (at most one bounce per case: the settle points and the renewal duty are reasoned about one re-creation at a time; namespaces that
+    #  come and go faster than their watchers terminate are C19's subject - where this family led to the fix d198701)
     seen_bounce = False
     for a in list(actions):
         if a['a'] == 'ns_bounce':
